@@ -107,7 +107,7 @@ def gen1(a):
     for f in FUNCS1:
         yield f"{f}({a})"
     for m in MACROS:
-        yield from (f"{a}.{m}(x, x)", f"{a}.{m}(x, true)", f"{a}.{m}(x, x > 0)", f"{a}.{m}(x, x.f)")
+        yield from (f"{a}.{m}(x, x)", f"{a}.{m}(x, true)", f"{a}.{m}(x, x > 0)", f"{a}.{m}(x, x.f)", f"[{a}].{m}(x, x)", f"[{a}, true].{m}(x, x)")
 
 
 def gen_malformed(a):
